@@ -42,7 +42,7 @@ Extend(op) ==
 Next == \/ \E i \in Idx(Firsts) : Start(i)
         \/ Extend("select") \/ Extend("derive") \/ Extend("filter") \/ Extend("sort")
         \/ Extend("take") \/ Extend("aggregate") \/ Extend("group") \/ Extend("window")
-        \/ Extend("join") \/ Extend("append") \/ Extend("exclude") \/ Extend("loop") \/ Extend("bad")
+        \/ Extend("join") \/ Extend("append") \/ Extend("remove") \/ Extend("intersect") \/ Extend("exclude") \/ Extend("loop") \/ Extend("bad")
 
 Spec == Init /\ [][Next]_vars
 
@@ -73,6 +73,8 @@ StepLaws ==
           /\ s.op = "filter" => \A n \in Lens(st', d) : \E m \in Lens(st, d) : n <= m
           /\ s.op = "take" => Lens(st', d) = { Max2(0, Min2(n, s.hi) - s.lo + 1) : n \in Lens(st, d) }
           /\ s.op = "aggregate" => Lens(st', d) = {1}
+          /\ s.op \in {"remove", "intersect"} => st'.frame = st.frame
+          /\ s.op = "remove" => \A n \in Lens(st', d) : \E m \in Lens(st, d) : n <= m
           /\ s.op \in {"filter", "take", "sort"} => st'.frame = st.frame
           /\ s.op = "group" => (Lens(st, d) = {0} => Lens(st', d) = {0})
     ]_vars
